@@ -712,7 +712,12 @@ impl<'a> PGen<'a> {
             PTy::Bool => PV::Int(self.rng.below(2) as i64),
             PTy::String => PV::Bytes(self.string()),
             PTy::Bytes => {
-                let n = self.rng.usize_below(9);
+                let n = match self.rng.below(8) {
+                    0 => 127,
+                    1 => 128,
+                    2 => 300,
+                    _ => self.rng.usize_below(9),
+                };
                 PV::Bytes(self.rng.bytes(n))
             }
             PTy::Enum(e) => {
@@ -767,10 +772,13 @@ impl<'a> PGen<'a> {
                                     if is_msg && deep {
                                         0
                                     } else {
-                                        match self.rng.below(6) {
-                                            0 => 0,
-                                            1 => 1,
-                                            2 => 5,
+                                        match self.rng.below(12) {
+                                            0 | 1 => 0,
+                                            2 | 3 => 1,
+                                            4 | 5 => 5,
+                                            // a long run of scalars: the packed payload and, unpacked, the
+                                            // whole message cross the 1-byte / 2-byte length boundary
+                                            6 if !is_msg && depth == 0 => 16 + self.rng.usize_below(150),
                                             _ => 1 + self.rng.usize_below(3),
                                         }
                                     }
@@ -793,7 +801,13 @@ impl<'a> PGen<'a> {
                     }
                 }
                 FKind::Map(kt, vt) => {
-                    let n = if self.fill == 0 || (matches!(vt, PTy::Msg(_)) && deep) { 0 } else { self.rng.usize_below(4) };
+                    let n = if self.fill == 0 || (matches!(vt, PTy::Msg(_)) && deep) {
+                        0
+                    } else if depth == 0 && self.rng.chance(1, 12) {
+                        40
+                    } else {
+                        self.rng.usize_below(4)
+                    };
                     let mut keys: Vec<PV> = vec![];
                     for _ in 0..n {
                         let k = self.scalar(kt);
